@@ -126,6 +126,10 @@ func c06(p *core.Prog, r *core.Report) {
 
 	c06Stamping(p, r)
 	c06RawHeader(p, r)
+	r.Rule("C06-R6", "E6 loops", 15, "decode loops terminate on truncated input (shared with C03)")
+	r.Alias("C03-R4", "C06-R6")
+	c03Loops(p, r)
+	r.Alias("C03-R4", "")
 	c06Inside(p, r)
 	c06Encode(p, r)
 }
@@ -454,6 +458,18 @@ func c06Inside(p *core.Prog, r *core.Report) {
 		// writer side: whole-buffer slice for a write buffer, or SizedPayload itself
 		if sl, ok := s.ins.(*ssa.Slice); ok {
 			if sl.Low == nil && sl.High == nil {
+				// the whole buffer may be handed to a writer, never to a reader:
+				// a read buffer over it decodes stale bytes beyond the declared size
+				toReader := false
+				for _, ref := range *sl.Referrers() {
+					if _, isRd := core.IsCall(ref, "typed.ReadBuffer.Wrap", "typed.NewReadBuffer"); isRd {
+						toReader = true
+					}
+				}
+				if toReader {
+					r.Fail("C06-R4", fn, name+" wrapped by a read buffer", pos, "a read buffer covers the whole pooled payload buffer instead of the declared size: a truncated message is completed from stale bytes of an earlier frame")
+					continue
+				}
 				r.OkTrivial("C06-R4", fn, name, pos, "full payload buffer handed to a writer")
 				continue
 			}
